@@ -16,7 +16,7 @@ ID = "C18"
 LEVEL = "exploration"
 RULE = (
     "(device) Hypothesis draws a display (cols 1-40, rows 1-4, I2C or parallel), 1-3 animations on distinct rows, each started at top level or inside the taken arm of an if/else whose other arm names a different animation for the same row (style in scroll/blink/typewriter/bounce, loop "
-    "on/off, speed_ms in {0,1,50,200,1000}, text empty/shorter/equal/longer than the row) started in the prologue, a main loop with a marker and optional sleep, and "
+    "on/off, speed_ms in {0,1,50,200,1000,65535,65536,70000,100000}, text empty/shorter/equal/longer than the row) started in the prologue, a main loop with a marker and optional sleep, and "
     "a tape of per-pass clock increments (0, 1, speed-1, speed, speed+1, 5*speed; first pass at millis()==0 or later); N = 3*bound+6 passes (bound = 2*(len+cols)+4). "
     "Invariants on the trace: no delay in setup() caused by animate; in every pass all display traffic precedes the first user statement with no delay; no write "
     "outside the display, frames touch only their row and clear exactly cols cells; a non-looping animation stops writing after <= bound+1 frames, a looping one "
@@ -29,7 +29,7 @@ ASSUMPTIONS = ["liveness is checked as bounded termination with the linear bound
 
 HEAD = "from Reduino.Communication import SerialMonitor\nfrom Reduino.Displays import LCD\nfrom Reduino.Utils import sleep\nmon = SerialMonitor(9600)\n"
 STYLES = ["scroll", "blink", "typewriter", "bounce"]
-SPEEDS = [0, 1, 50, 200, 1000]
+SPEEDS = [0, 1, 50, 200, 1000, 65535, 65536, 70000, 100000]
 
 
 def bound(text_len, cols):
